@@ -231,6 +231,8 @@ def run(ctx):
             gaps_seen[d["what"][4:]] = gaps_seen.get(d["what"][4:], 0) + 1
         else:
             drift.append(d)
+    log("GOSSIP: level-1 conformance drift: %d; observations of the named gaps at rest (listed with the drifts above): %d"
+        % (len(drift), sum(gaps_seen.values())))
     classes, steps_sending, rest = set(), 0, 0
     for r in rows:
         if r["ev"] == "Step":
